@@ -152,7 +152,10 @@ def run_property(prop, tier, seed, replay=None, keep=False, quiet=False):
     for k, f in violations:
         for it in f["items"][:3]:
             hid = "%016x" % h64(prop, k, it["payload"])
-            path = os.path.join(env.REPLAYS, "%s-%s.json" % (prop, hid[:12]))
+            rdir = env.REPLAYS if (os.environ.get("VMON_NO_EVIDENCE") is None and env.repo_path() == "/repo") \
+                else os.path.join(env.WORK, "replays-scratch")
+            os.makedirs(rdir, exist_ok=True)
+            path = os.path.join(rdir, "%s-%s.json" % (prop, hid[:12]))
             with open(path, "w") as fh:
                 json.dump({"property": prop, "key": k, "tier": tier, "seed": seed,
                            "payload": it["payload"], "detail": it["detail"]}, fh, indent=1)
@@ -190,7 +193,8 @@ def run_property(prop, tier, seed, replay=None, keep=False, quiet=False):
         "wall_s": round(time.time() - t0, 2),
         "violations": int(nviol),
     }
-    if not replay:
+    scratch_tree = bool(os.environ.get("VMON_NO_EVIDENCE")) or env.repo_path() != "/repo"
+    if not replay and not scratch_tree:   # evidence only ever describes runs against /repo itself
         with open(os.path.join(env.EVIDENCE, "%s.json" % prop), "w") as fh:
             json.dump(evidence, fh, indent=1, sort_keys=True)
             fh.write("\n")
